@@ -451,7 +451,7 @@ func (b *builder) genTry(rng *rand.Rand, depth int, fails *bool) *Cmd {
 const (
 	exhBodies   = 10
 	exhHandlers = 4
-	exhDrivers  = 2
+	exhDrivers  = 3
 	exhTotal    = exhDrivers * exhBodies * exhHandlers * exhHandlers * exhHandlers
 )
 
@@ -518,7 +518,7 @@ func exhProgram(idx int, rng *rand.Rand) (b *builder, top *Cmd, driver string, l
 	top = b.try(body, hk(hs), hk(hf), hk(hfin))
 	top.Quote = rng.Intn(2) == 0
 	top.Silent = rng.Intn(3)
-	driver = []string{"term", "args"}[d]
+	driver = []string{"term", "args", "ownroot"}[d]
 	label = fmt.Sprintf("body=%s success=%s fail=%s finally=%s", exhBodyNames[bk], exhHandlerNames[hs], exhHandlerNames[hf], exhHandlerNames[hfin])
 	return
 }
